@@ -150,14 +150,24 @@ func GenDoc(r *rand.Rand, sch *Schema, id string, o DocOpts) *model.MDoc {
 				}
 				used[t] = true
 				mt := &model.MTerm{T: []byte(t), F: 1 + r.Intn(3)}
+				if r.Intn(60) == 0 {
+					mt.F = boundaryInt(r, 20000) // frequencies around the varint size steps
+					if mt.F < 1 {
+						mt.F = 1
+					}
+				}
 				if s.Locs && r.Intn(4) > 0 {
-					nl := 1 + r.Intn(mt.F)
+					nl := 1 + r.Intn(min(mt.F, 3))
 					for q := 0; q < nl; q++ {
 						lf := ""
 						if s.Composite && r.Intn(2) == 0 {
 							lf = names[r.Intn(len(names))]
 						}
-						mt.L = append(mt.L, &model.MLoc{F: lf, P: pos, S: pos * 3, E: pos*3 + 2 + r.Intn(300)})
+						l := &model.MLoc{F: lf, P: pos, S: pos * 3, E: pos*3 + 2 + r.Intn(300)}
+						if r.Intn(25) == 0 { // positions / offsets exactly at the varint size steps (127|128, 16383|16384, …)
+							l.P, l.S, l.E = boundaryInt(r, 1<<31-1), boundaryInt(r, 1<<31-1), boundaryInt(r, 1<<31-1)
+						}
+						mt.L = append(mt.L, l)
 						pos++
 					}
 				}
@@ -171,6 +181,52 @@ func GenDoc(r *rand.Rand, sch *Schema, id string, o DocOpts) *model.MDoc {
 	}
 	r.Shuffle(len(d.Fields), func(i, j int) { d.Fields[i], d.Fields[j] = d.Fields[j], d.Fields[i] })
 	return d
+}
+
+var boundaries = []int{0, 1, 127, 128, 129, 255, 256, 16383, 16384, 16385, 16511, 16512, 2097151, 2097152, 268435455, 268435456, 1<<31 - 1}
+
+func boundaryInt(r *rand.Rand, max int) int {
+	for {
+		v := boundaries[r.Intn(len(boundaries))]
+		if v <= max {
+			return v
+		}
+	}
+}
+
+// WideSchema has nf fields f000.. so that field ids above 127 occur (two-byte
+// varints for the field id of a location) and locations name far-away fields.
+func WideSchema(r *rand.Rand, nf int) *Schema {
+	s := &Schema{IDP: 9}
+	for i := 0; i < nf; i++ {
+		s.Fields = append(s.Fields, FieldSpec{Name: fmt.Sprintf("f%03d", i), DV: i%3 == 0, Locs: true, Composite: true,
+			Vocab: []string{"t0", "t1", fmt.Sprintf("w%d", i%5)}, StoreP: 2, Unique: i%7 == 0})
+	}
+	return s
+}
+
+// WideBatch draws documents that each carry a handful of the wide schema's fields.
+func WideBatch(r *rand.Rand, sch *Schema, n int, prefix string) []*model.MDoc {
+	docs := make([]*model.MDoc, n)
+	for i := range docs {
+		sub := &Schema{IDP: sch.IDP}
+		for k := 0; k < 2+r.Intn(6); k++ {
+			sub.Fields = append(sub.Fields, sch.Fields[r.Intn(len(sch.Fields))])
+		}
+		// locations may name any field of the wide schema that the batch carries (ToSegDocs blanks the others)
+		d := GenDoc(r, sub, fmt.Sprintf("%s-%d", prefix, i), DocOpts{Repeat: true})
+		for _, f := range d.Fields {
+			for _, t := range f.Terms {
+				for _, l := range t.L {
+					if l.F != "" && r.Intn(2) == 0 {
+						l.F = sch.Fields[r.Intn(len(sch.Fields))].Name
+					}
+				}
+			}
+		}
+		docs[i] = d
+	}
+	return docs
 }
 
 // GenBatch draws n documents with ids prefix-0 … prefix-(n-1).
